@@ -154,6 +154,9 @@ fn check_case(case: &MapCase, st: &mut Stats) -> Check {
     if st.want_sample() && case.file.n_methods() >= 3 {
         st.sample(|| json!({"mapping": pgverif::engine::show_bytes(&bytes), "queries": qs.len(), "thread_counts": [2, 3, 4, 8, 16], "rounds": 3}));
     }
+    if st.cases % 4 == 0 {
+        shared_values(&bytes, case.key, st)?;
+    }
     stress(&bytes, &qs, case.key, case.hash(), st)
 }
 
@@ -182,6 +185,92 @@ fn check_scale(c: &pgverif::props::scale::ScaleCase, st: &mut Stats) -> Check {
     }
     st.class(&format!("scale mapping under stress: {:?}", c.kind));
     stress(&bytes, &qs, c.n as u64, fnv64(format!("{:?}{}", c.kind, c.n).as_bytes()), st)
+}
+
+/// The `ProguardMapping` and the *result objects* are part of the statement as well: one mapping shared by reference
+/// (has_line_info / is_valid / summary / iter / uuid / section), one `DeobfuscatedSignature`, `StackTrace`, `StackFrame`
+/// and `Throwable` shared by reference and formatted / read from many threads at once.
+fn shared_values(bytes: &[u8], key: u64, st: &mut Stats) -> Check {
+    let text_sigs = ["(La;I[[J)Lb;", "()V", "([Lcom/example/Foo;)I", "(ZBCSIJFD)Ljava/lang/String;"];
+    let describe = |m: &proguard::ProguardMapping| {
+        let s = m.summary();
+        format!("{} {} {} {} {:?} {:?} {:?} {} {}", m.has_line_info(), m.is_valid(), s.class_count(), s.method_count(), s.compiler(), s.compiler_version(), s.min_api(), m.iter().count(), m.uuid())
+    };
+    // ranges at line starts
+    let mut cuts: Vec<usize> = vec![0];
+    cuts.extend(bytes.iter().enumerate().filter(|(_, c)| **c == b'\n').map(|(i, _)| i + 1).take(12));
+    cuts.push(bytes.len());
+    cuts.dedup();
+    let ranges: Vec<(usize, usize)> = cuts.iter().flat_map(|a| cuts.iter().filter(move |b| *b > a).map(move |b| (*a, *b))).take(20).collect();
+    // answers "alone": every section as a fresh mapping over its own bytes
+    let alone_whole = describe(&proguard::ProguardMapping::new(bytes));
+    let alone_sections: Vec<String> = ranges.iter().map(|(a, b)| describe(&proguard::ProguardMapping::new(&bytes[*a..*b]))).collect();
+    let alone_mapper = proguard::ProguardMapper::new(proguard::ProguardMapping::new(bytes));
+    let alone_sigs: Vec<Option<(String, String, Vec<String>)>> = text_sigs
+        .iter()
+        .map(|s| alone_mapper.deobfuscate_signature(s).map(|d| (d.format_signature(), d.return_type().to_string(), d.parameters_types().map(|x| x.to_string()).collect())))
+        .collect();
+    for threads in [2usize, 4, 8, 16] {
+        // fresh shared values for every thread count
+        let shared = proguard::ProguardMapping::new(bytes);
+        let mapper = proguard::ProguardMapper::new(proguard::ProguardMapping::new(bytes));
+        let sigs: Vec<Option<proguard::DeobfuscatedSignature>> = text_sigs.iter().map(|s| mapper.deobfuscate_signature(s)).collect();
+        let trace_text = "a.b: boom\n    at a.b.c(F.java:3)\n    at x.y(G:7)\nCaused by: c.d\n    at e.f(H:1)\n";
+        let trace = proguard::StackTrace::try_parse(trace_text.as_bytes()).unwrap();
+        let remapped = mapper.remap_stacktrace_typed(&trace);
+        let alone_trace = remapped.to_string();
+        let barrier = Barrier::new(threads);
+        let bad: Vec<Option<String>> = std::thread::scope(|sc| {
+            let hs: Vec<_> = (0..threads)
+                .map(|t| {
+                    let (shared, sigs, remapped, barrier) = (&shared, &sigs, &remapped, &barrier);
+                    let (alone_whole, alone_sections, alone_sigs, alone_trace, ranges) = (&alone_whole, &alone_sections, &alone_sigs, &alone_trace, &ranges);
+                    sc.spawn(move || {
+                        let mut seed = fnv_mix(key, &[t as u8, threads as u8, 7]) | 1;
+                        let mut first_bad = None;
+                        barrier.wait();
+                        for round in 0..3 {
+                            // odd threads ask the sections first, even threads the parent first
+                            let order: Vec<usize> = if (t + round) % 2 == 0 { (0..=ranges.len()).collect() } else { (0..=ranges.len()).rev().collect() };
+                            for i in order {
+                                if xorshift(&mut seed) % 4 == 0 {
+                                    std::thread::yield_now();
+                                }
+                                let (got, want) = if i == ranges.len() {
+                                    (describe(shared), alone_whole.clone())
+                                } else {
+                                    let (a, b) = ranges[i];
+                                    (describe(&shared.section(a..b)), alone_sections[i].clone())
+                                };
+                                if got != want && first_bad.is_none() {
+                                    first_bad = Some(format!("shared ProguardMapping: {} answered {got:?}, alone it answers {want:?}", if i == ranges.len() { "the mapping".to_string() } else { format!("section {:?}", ranges[i]) }));
+                                }
+                            }
+                            for (d, want) in sigs.iter().zip(alone_sigs.iter()) {
+                                let got = d.as_ref().map(|d| (d.format_signature(), d.return_type().to_string(), d.parameters_types().map(|x| x.to_string()).collect::<Vec<_>>()));
+                                let disp = d.as_ref().map(|d| d.to_string());
+                                if (&got != want || disp != want.as_ref().map(|w| w.0.clone())) && first_bad.is_none() {
+                                    first_bad = Some(format!("shared DeobfuscatedSignature answered {got:?} / Display {disp:?}, alone it answers {want:?}"));
+                                }
+                            }
+                            let t2 = remapped.to_string();
+                            if &t2 != alone_trace && first_bad.is_none() {
+                                first_bad = Some(format!("shared StackTrace printed {t2:?}, alone it prints {alone_trace:?}"));
+                            }
+                        }
+                        first_bad
+                    })
+                })
+                .collect();
+            hs.into_iter().map(|h| h.join().unwrap_or(Some("a thread panicked".into()))).collect()
+        });
+        st.evaluations += (threads * 3 * (ranges.len() + 1 + text_sigs.len() + 1)) as u64;
+        if let Some(Some(msg)) = bad.into_iter().find(|b| b.is_some()) {
+            return Err(Fail::new("shared-value-answer-differs", format!("with {threads} threads: {msg}")).with(json!({"threads": threads})));
+        }
+    }
+    st.class("shared ProguardMapping (incl. sections) and shared result objects");
+    Ok(())
 }
 
 fn stress(bytes: &[u8], qs: &[Q], key: u64, case_hash: u64, st: &mut Stats) -> Check {
@@ -299,7 +388,7 @@ fn main() {
         }
     }
     let mut rep = Report::new("C20", "exploration", &ctx);
-    rep.rule = "Static part (enumerated by the compiler): Send + Sync assertions for ProguardMapper, ProguardMapping, ProguardCache, ProguardRecordIter, ProguardRecord, RemappedFrameIter, the cache's frame iterator (on the value), StackFrame, StackTrace, Throwable, DeobfuscatedSignature, CacheError, CacheErrorKind, ParseError, LineMapping, MappingSummary; mapper and cache are also moved into another thread. Dynamic part: generated mappings x the query universe (class, method, frame by line, frame by params, text traces, signatures) incl. ~200 distinct signature strings, 24 distinct trace texts and 40 unknown class names per mapping (so that any memo/cache layer sees concurrent first-time inserts), issued from T in {2,3,4,8,16} threads sharing one fresh (never queried) &ProguardMapper / &ProguardCache per thread count; round 0: every thread asks every query in its own seeded order; rounds 1-2: overlapping slices; seeded yield/spin perturbation, every round starts from a barrier; every answer is compared with the transcript of a separate instance queried alone. evaluations = queries issued concurrently. Non-trivial = distinct (mapping, implementation, thread count) runs in which >=2 queries with non-empty answers were issued concurrently.".into();
+    rep.rule = "Static part (enumerated by the compiler): Send + Sync assertions for ProguardMapper, ProguardMapping, ProguardCache, ProguardRecordIter, ProguardRecord, RemappedFrameIter, the cache's frame iterator (on the value), StackFrame, StackTrace, Throwable, DeobfuscatedSignature, CacheError, CacheErrorKind, ParseError, LineMapping, MappingSummary; mapper and cache are also moved into another thread. Dynamic part: generated mappings x the query universe (class, method, frame by line, frame by params, text traces, signatures) incl. ~200 distinct signature strings, 24 distinct trace texts and 40 unknown class names per mapping (so that any memo/cache layer sees concurrent first-time inserts), issued from T in {2,3,4,8,16} threads sharing one fresh (never queried) &ProguardMapper / &ProguardCache per thread count; round 0: every thread asks every query in its own seeded order; rounds 1-2: overlapping slices; seeded yield/spin perturbation, every round starts from a barrier; every answer is compared with the transcript of a separate instance queried alone. On every 4th mapping the ProguardMapping itself (has_line_info, is_valid, summary, iter, uuid, and section() in both orders relative to the parent) and the result objects (one DeobfuscatedSignature, one remapped StackTrace) are shared by reference and read / formatted from 2..16 threads. evaluations = queries issued concurrently. Non-trivial = distinct (mapping, implementation, thread count) runs in which >=2 queries with non-empty answers were issued concurrently.".into();
     rep.assumptions = vec!["the harness does not own the schedule: interleavings are sampled by real threads, not enumerated".into(), "the static assertions carry most of the weight: Rc/RefCell/Cell-style interior mutability fails to compile".into()];
     let n_static = static_assertions() + static_assertions_values();
     rep.stats.class_n("static Send+Sync assertions compiled", n_static as u64);
